@@ -49,6 +49,7 @@ def nontrivial(plan):
 
 
 def _compare_back(what, back, src, kinds, has_value):
+    what = _PHASE[0] + what
     if not isinstance(back, di.DataFrame):
         raise Violation(f"{what}: back-conversion did not give a DataFrame")
     names = list(src)
@@ -72,10 +73,44 @@ def _compare_back(what, back, src, kinds, has_value):
             raise Violation(f"{what}: dtype differs after the round trip", column=cn, got=build.dtype_tag(col), want=tag)
 
 
+_PHASE = [""]
+FILL = {"f": 1.5, "s": "zz", "u": "z", "d": "2001-02-03", "t": "2001-02-03T04:05:06", "ob": False, "i": 7, "b": True}
+
+
 def check(plan, ctx):
     fp = plan["frame"]
     data = build.frame(fp, rid=None)
+    _roundtrips(data, fp, ctx)
+    # ---- history: edit cells in place (fill a missing slot, blank a filled one), then convert again ----
+    fp2 = {"n": fp["n"], "cols": [dict(c, vals=list(c["vals"])) for c in fp["cols"]]}
+    edited = 0
+    for c in fp2["cols"]:
+        kind, vals = c["kind"], c["vals"]
+        col = data[c["name"]]
+        miss = [j for j, v in enumerate(vals) if build.plan_isna(kind, v)]
+        full = [j for j, v in enumerate(vals) if not build.plan_isna(kind, v)]
+        if miss:
+            j = miss[0]
+            vals[j] = FILL[kind]
+            col[j] = build.np_array(kind, [FILL[kind]])[0]
+            edited += 1
+        if full and kind in ("f", "s", "d", "t", "ob") and len(full) > 1:
+            j = full[-1]
+            vals[j] = gen.NA_VALUE[kind]
+            col[j] = col.na_value
+            edited += 1
+    if edited:
+        ctx.cls("reconverted_after_in_place_edit")
+        _roundtrips(data, fp2, ctx, phase="after in-place edit: ")
+
+
+def _roundtrips(data, fp, ctx, phase=""):
+    _PHASE[0] = phase
     src = build.table(data)
+    want = {c["name"]: [build.pcell(c["kind"], v) for v in c["vals"]] for c in fp["cols"]}
+    for cn, (tag, cells_) in src.items():
+        if not all(build.same_cell(a, b) for a, b in zip(cells_, want[cn])):
+            raise RuntimeError(f"builder/edit mismatch in column {cn}: {cells_} vs {want[cn]}")
     before = build.snap_frame(data)
     names = list(src)
     n = fp["n"]
@@ -98,10 +133,10 @@ def check(plan, ctx):
             for cn in names:
                 if missing[cn][i]:
                     if r[cn] is not None:
-                        raise Violation(f"{what}: missing value crossed the boundary as a sentinel, not null",
+                        raise Violation(f"{_PHASE[0]}{what}: missing value crossed the boundary as a sentinel, not null",
                                         column=cn, row=i, got=r[cn])
                 elif r[cn] is None or (isinstance(r[cn], float) and r[cn] != r[cn]):
-                    raise Violation(f"{what}: non-missing value became null", column=cn, row=i)
+                    raise Violation(f"{_PHASE[0]}{what}: non-missing value became null", column=cn, row=i)
 
     # ---- ListOfDicts ----
     lod = ctx.call("to_list_of_dicts", data.to_list_of_dicts)
@@ -129,7 +164,7 @@ def check(plan, ctx):
     for cn in names:
         isna = [bool(x) for x in pdf[cn].isna().to_numpy()]
         if isna != missing[cn]:
-            raise Violation("to_pandas: null positions differ from the missing positions", column=cn, got=isna,
+            raise Violation(_PHASE[0] + "to_pandas: null positions differ from the missing positions", column=cn, got=isna,
                             want=missing[cn])
     back = ctx.call("from_pandas", lambda: di.DataFrame.from_pandas(pdf))
     _compare_back("pandas", back, src, kinds, has_value)
@@ -141,7 +176,7 @@ def check(plan, ctx):
     for cn, col in zip(tab.column_names, tab.columns):
         nulls = [bool(x) for x in col.is_null().to_numpy(zero_copy_only=False)]
         if nulls != missing[cn]:
-            raise Violation("to_arrow: null positions differ from the missing positions", column=cn, got=nulls,
+            raise Violation(_PHASE[0] + "to_arrow: null positions differ from the missing positions", column=cn, got=nulls,
                             want=missing[cn])
     back = ctx.call("from_arrow", lambda: di.DataFrame.from_arrow(tab))
     _compare_back("Arrow", back, src, kinds, has_value)
